@@ -1,6 +1,6 @@
 (* Props/C13Alg.v -- property theorems (MathComp side, any realFieldType, all dimensions) *)
 From mathcomp Require Import all_ssreflect all_algebra.
-From PG Require Import Alg.Order Alg.Lam.
+From PG Require Import Alg.Order Alg.Lam Alg.LamRate.
 Set Implicit Arguments. Unset Strict Implicit. Unset Printing Implicit Defensive.
 Import GRing.Theory Num.Theory.
 Local Open Scope ring_scope.
@@ -36,3 +36,23 @@ Theorem C13_limit : forall (F : realFieldType) n m (A : 'M[F]_(n,m)) (z : 'cV[F]
   Hval A z S0 bl <= Hval A z S0 b0 /\ gval P bl <= Hval A z S0 b0 / l.
 Proof. move=> F n m A z S0 P HS0 HP pS0 pP l bl b0. exact: lam_limit. Qed.
 Print Assumptions C13_limit.
+
+(* "As lam grows without bound the fit tends to the weighted least-squares fit within the penalty's unpenalised space": with an explicit
+   rate.  b0 lies in the null space of P and is the least-squares fit within it, written in the finite-dimensional form
+   A'z - (A'A + S0) b0 = P u  (the unrestricted residual gradient at b0 is orthogonal to ker P, i.e. lies in range P for symmetric P;
+   harness/props/c13.py computes such a u for every fitted scenario and evaluates the bound on the implementation).  Then the distance
+   in the data + ridge norm, hence the distance of the fitted values, decays like 1 / lam and the roughness like 1 / lam^2. *)
+Theorem C13_limit_rate : forall (F : realFieldType) n m (A : 'M[F]_(n,m)) (z : 'cV[F]_n) (S0 P : 'M[F]_m),
+  P^T = P -> psd S0 -> psd P ->
+  forall (l : F) (bl b0 u : 'cV[F]_m), 0 < l ->
+  (A^T *m A + (S0 + l *: P)) *m bl = A^T *m z -> P *m b0 = 0 -> A^T *m z - (A^T *m A + S0) *m b0 = P *m u ->
+  qf (A^T *m A + S0) (bl - b0) <= qf P u / (2 * l) /\ qf P bl <= qf P u / (l * l).
+Proof. move=> F n m A z S0 P HP pS0 pP l bl b0 u. exact: lam_rate. Qed.
+Print Assumptions C13_limit_rate.
+Theorem C13_limit_rate_fitted : forall (F : realFieldType) n m (A : 'M[F]_(n,m)) (z : 'cV[F]_n) (S0 P : 'M[F]_m),
+  P^T = P -> psd S0 -> psd P ->
+  forall (l : F) (bl b0 u : 'cV[F]_m), 0 < l ->
+  (A^T *m A + (S0 + l *: P)) *m bl = A^T *m z -> P *m b0 = 0 -> A^T *m z - (A^T *m A + S0) *m b0 = P *m u ->
+  ip (A *m (bl - b0)) (A *m (bl - b0)) <= qf P u / (2 * l).
+Proof. move=> F n m A z S0 P HP pS0 pP l bl b0 u. exact: lam_rate_fitted. Qed.
+Print Assumptions C13_limit_rate_fitted.
